@@ -256,7 +256,9 @@ impl<T: Numeric> Atomic<T> {
 
     /// Loads a value from the atomic cell without performing synchronization
     pub(crate) fn unsync_load(&self, location: Location) -> T {
-        rt::execution(|execution| {
+        // Like every other access, this advances the thread's version so that
+        // the access is not covered by an earlier release of the same thread.
+        rt::synchronize(|execution| {
             let state = self.state.get_mut(&mut execution.objects);
 
             state
@@ -344,7 +346,9 @@ impl<T: Numeric> Atomic<T> {
     ///
     /// `with_mut` must happen-after all stores to the cell.
     pub(crate) fn with_mut<R>(&mut self, location: Location, f: impl FnOnce(&mut T) -> R) -> R {
-        let value = super::execution(|execution| {
+        // Like every other access, this advances the thread's version so that
+        // the access is not covered by an earlier release of the same thread.
+        let value = super::synchronize(|execution| {
             let state = self.state.get_mut(&mut execution.objects);
 
             state
